@@ -428,6 +428,8 @@ def provenance(expr: ast.AST, func: ast.AST, _defs=None, _seen=None) -> Prov:
                 go(e.func.value)
             elif d:
                 p.ops.add(d + "()")
+                if isinstance(e.func, ast.Name) and (e.func.id in params or e.func.id in defs):
+                    go(e.func)
             for a_ in e.args:
                 go(a_.value if isinstance(a_, ast.Starred) else a_)
             for k in e.keywords:
